@@ -1605,9 +1605,11 @@ def spec_call(I, e, frame):
         if skolem:
             k = I.path.fresh_int(var)
             if getattr(I, "inst_term", None) is None:
-                # (a skolem born inside an instance of a lazy hypothesis is not an instantiation term itself:
-                # forall-exists hypotheses would otherwise feed themselves without end)
                 I.path.add_pool(k)
+            elif not getattr(I.path, "_in_pool2_round", False):
+                # a skolem born inside an instance of a lazy hypothesis (forall-exists): second-generation term; the
+                # hypotheses are instantiated at it once, and what is born there is not used again (no divergence)
+                I.path.add_pool2(k)
             fr = itp.Frame(frame.fn, {var: qwrap(k)}, frame.globals, frame.info, parent=frame)
             guard = dom(k) + [I.as_bool_expr(I.eval(c, fr)) for c in ifs]
             body = I.as_bool_expr(I.eval(elt, fr))
